@@ -113,19 +113,23 @@ impl Cx {
     #[inline]
     pub fn cov(&mut self, parts: &[u64]) {
         let _g = enter(Ctx::Infra);
-        let mut h: u64 = 0xcbf2_9ce4_8422_2325;
-        for &p in parts {
-            h ^= p.wrapping_add(0x9E37_79B9);
-            h = h.wrapping_mul(0x0000_0100_0000_01B3);
-            h ^= h >> 29;
-        }
-        self.cover.insert(h);
+        self.cover.insert(cov_hash(parts));
     }
     #[inline]
     pub fn probe(&mut self, name: &'static str) {
         let _g = enter(Ctx::Infra);
         *self.probes.entry(name).or_insert(0) += 1;
     }
+}
+
+pub fn cov_hash(parts: &[u64]) -> u64 {
+    let mut h: u64 = 0xcbf2_9ce4_8422_2325;
+    for &p in parts {
+        h ^= p.wrapping_add(0x9E37_79B9);
+        h = h.wrapping_mul(0x0000_0100_0000_01B3);
+        h ^= h >> 29;
+    }
+    h
 }
 
 pub fn fail(class: &'static str, detail: String) {
@@ -202,23 +206,27 @@ impl<E: Elem> Cb<E> {
 
 /// Closure argument forms: owned element, shared and mutable reference.
 pub trait Arg<E: Elem> {
-    /// observe; returns (id, owned value if the form is by value)
-    fn open(self, site: u32) -> (u32, Option<E>);
+    /// observe; returns (id, a value the callback now owns). By-value forms always hand over the
+    /// element; with `take` set a shared reference hands over a clone of the element (Clone seam)
+    /// and a mutable reference swaps a fresh element in and hands over the old one.
+    fn open(self, site: u32, take: bool) -> (u32, Option<E>);
 }
 impl<E: Elem> Arg<E> for E {
-    fn open(self, site: u32) -> (u32, Option<E>) {
+    fn open(self, site: u32, _take: bool) -> (u32, Option<E>) {
         let id = self.observe(site);
         (id, Some(self))
     }
 }
 impl<'a, E: Elem> Arg<E> for &'a E {
-    fn open(self, site: u32) -> (u32, Option<E>) {
-        (self.observe(site), None)
+    fn open(self, site: u32, take: bool) -> (u32, Option<E>) {
+        let id = self.observe(site);
+        (id, if take { Some(self.clone()) } else { None })
     }
 }
 impl<'a, E: Elem> Arg<E> for &'a mut E {
-    fn open(self, site: u32) -> (u32, Option<E>) {
-        (self.observe(site), None)
+    fn open(self, site: u32, take: bool) -> (u32, Option<E>) {
+        let id = self.observe(site);
+        (id, if take { Some(core::mem::replace(self, E::make())) } else { None })
     }
 }
 
@@ -227,17 +235,17 @@ impl<'a, E: Elem> Arg<E> for &'a mut E {
 pub struct Plain(pub u32);
 pub const PLAIN_TAG: u32 = 0x2000_0000;
 impl<E: Elem> Arg<E> for Plain {
-    fn open(self, _site: u32) -> (u32, Option<E>) {
+    fn open(self, _site: u32, _take: bool) -> (u32, Option<E>) {
         (PLAIN_TAG | self.0, None)
     }
 }
 impl<'a, E: Elem> Arg<E> for &'a Plain {
-    fn open(self, _site: u32) -> (u32, Option<E>) {
+    fn open(self, _site: u32, _take: bool) -> (u32, Option<E>) {
         (PLAIN_TAG | self.0, None)
     }
 }
 impl<'a, E: Elem> Arg<E> for &'a mut Plain {
-    fn open(self, _site: u32) -> (u32, Option<E>) {
+    fn open(self, _site: u32, _take: bool) -> (u32, Option<E>) {
         (PLAIN_TAG | self.0, None)
     }
 }
@@ -264,7 +272,8 @@ fn dispose<E: Elem>(cb: &mut Cb<E>, e: Option<E>, allow_pass: bool) -> Option<E>
 pub fn map_cb<E: Elem, A: Arg<E>>(cb: &mut Cb<E>, a: A) -> E {
     let _g = enter(Ctx::Work);
     ledger::tick(Seam::Closure);
-    let (id, owned) = a.open(910);
+    let take = (cb.beh + cb.calls) % 3 == 0;
+    let (id, owned) = a.open(910, take);
     cb.record(id, 0);
     let pass = dispose(cb, owned, true);
     cb.calls += 1;
@@ -278,8 +287,9 @@ pub fn map_cb<E: Elem, A: Arg<E>>(cb: &mut Cb<E>, a: A) -> E {
 pub fn zip_cb<E: Elem, A: Arg<E>, B: Arg<E>>(cb: &mut Cb<E>, a: A, b: B) -> E {
     let _g = enter(Ctx::Work);
     ledger::tick(Seam::Closure);
-    let (ida, oa) = a.open(910);
-    let (idb, ob) = b.open(912);
+    let take = (cb.beh + cb.calls) % 3 == 0;
+    let (ida, oa) = a.open(910, take);
+    let (idb, ob) = b.open(912, (cb.beh + cb.calls) % 3 == 2);
     cb.record(ida, idb);
     let pass = dispose(cb, oa, true);
     let _ = dispose(cb, ob, false);
@@ -299,7 +309,8 @@ pub struct Acc<E> {
 pub fn fold_cb<E: Elem, A: Arg<E>>(cb: &mut Cb<E>, mut acc: Acc<E>, a: A) -> Acc<E> {
     let _g = enter(Ctx::Work);
     ledger::tick(Seam::Closure);
-    let (id, owned) = a.open(910);
+    let take = (cb.beh + cb.calls) % 3 == 0;
+    let (id, owned) = a.open(910, take);
     // args: (element id, low bits of the incoming token)
     cb.record(id, acc.token as u32);
     if let Some(e) = dispose(cb, owned, true) {
